@@ -9,8 +9,10 @@ erl_dist_protocol "Distribution Handshake"), written from the protocol and not f
     messages this side SENDS carry their 2-byte length prefix (the state machine emits it itself),
     messages this side RECEIVES are given without it (the transport strips it);
   * the digest `MD5 (cookie ++ decimal challenge)` with the hash as a parameter;
-  * the API vocabulary `Op` and, purely as a function of the history of API events, which challenge this side
-    has issued in the handshake in progress, which challenge the peer sent, and the capability intersection.
+  * the API vocabulary `Op` and the protocol automaton of the connecting side (`connStep`): which event is allowed in
+    which phase, which challenge this side has issued in the handshake in progress, what it emits, what kills the
+    handshake, and the capability intersection;
+  * the capability-flag bits and message tags the protocol assigns.
 Core Lean only (linked into the driver).
 -/
 namespace Edp.Spec.Handshake
@@ -153,7 +155,7 @@ def parseSendNameOld (bs : Bytes) : Option (Nat × Bytes) :=
     else none
   | _ => none
 
-/-! ### the API vocabulary and the history functions -/
+/-! ### the API vocabulary and the connecting side's protocol automaton -/
 
 /-- one event per public method of the handshake API (the `chal` of `handleChallenge` is the value the
 clock-derived generator returned inside that call) -/
@@ -168,44 +170,143 @@ inductive Op
   | disconnect
 deriving DecidableEq, Repr
 
-/-- what the history determines: the challenge this side generated for the handshake in progress, the
-peer's challenge, and the capability intersection -/
-structure Hist where
-  our : Option Nat
-  their : Option Nat
+def Op.isBegin : Op → Bool | .beginConnect => true | _ => false
+def Op.isSendName : Op → Bool | .prepareSendName => true | _ => false
+def Op.isStatus : Op → Bool | .handleStatus _ => true | _ => false
+def Op.isChallenge : Op → Bool | .handleChallenge _ _ => true | _ => false
+def Op.isReply : Op → Bool | .prepareChallengeReply => true | _ => false
+def Op.isAck : Op → Bool | .handleChallengeAck _ => true | _ => false
+def Op.isDisconnect : Op → Bool | .disconnect => true | _ => false
+
+/-- where the connecting side is in the handshake (erl_dist_protocol, "Distribution Handshake", steps 2-8 as seen
+from A). The challenges live in the phase that needs them: `challenged ours theirs` (the peer's challenge arrived,
+this side generated its own, the reply is due), `replied ours` (the reply went out, the ack is due). -/
+inductive Phase
+  | idle
+  | begun
+  | nameSent
+  | accepted
+  | challenged (ours theirs : Nat)
+  | replied (ours : Nat)
+  | established
+  | dead
+deriving DecidableEq, Repr
+
+/-- the connecting side: its phase and the negotiated capability set (kept until `disconnect`) -/
+structure Conn where
+  phase : Phase
   neg : Option Nat
 deriving DecidableEq, Repr
 
-def Hist.empty : Hist := ⟨none, none, none⟩
+def Conn.empty : Conn := ⟨.idle, none⟩
 
-/-- a well-formed challenge message starts a new round (fresh challenge of ours, the peer's challenge, the flag
-intersection); `disconnect` ends the handshake; nothing else touches them -/
-def histStep (ourFlags : Nat) (h : Hist) : Op → Hist
-  | .disconnect => Hist.empty
+/-- what the connecting side is configured with -/
+structure Side where
+  name : Bytes
+  cookie : Bytes
+  flags : Nat
+  creation : Nat
+
+/-- the outcome of one API event: success, a message to put on the wire, or an error -/
+inductive Resp
+  | ok
+  | sent (b : Bytes)
+  | error
+deriving DecidableEq, Repr
+
+/-- The protocol automaton of the connecting side. Every event is accepted only in the phase the protocol puts it in
+(anything else is an error that changes nothing); a refusal status, an unparsable message or a wrong digest kills
+the handshake (`dead`), from where only `disconnect` leads on; `established` is entered by exactly one edge: an ack
+carrying `dg cookie ours` while the reply with `ours` is outstanding. `dg` is the digest function. -/
+def connStep (p : Side) (dg : Bytes → Nat → Bytes) (h : Conn) : Op → Conn × Resp
+  | .disconnect => (Conn.empty, .ok)
+  | .beginConnect =>
+    match h.phase with
+    | .idle => ({ h with phase := .begun }, .ok)
+    | _ => (h, .error)
+  | .prepareSendName =>
+    match h.phase with
+    | .begun =>
+      if p.name.length ≤ 255 then ({ h with phase := .nameSent }, .sent (sendNameOld p.flags p.name))
+      else ({ h with phase := .dead }, .error)
+    | _ => (h, .error)
+  | .handleStatus b =>
+    match h.phase with
+    | .nameSent =>
+      match parseStatus b with
+      | some st => if st.accepts then ({ h with phase := .accepted }, .ok) else ({ h with phase := .dead }, .error)
+      | none => ({ h with phase := .dead }, .error)
+    | _ => (h, .error)
+  | .prepareComplement =>
+    match h.phase with
+    | .accepted => (h, .sent (complement p.flags p.creation))
+    | _ => (h, .error)
   | .handleChallenge b c =>
-    match parseChallenge b with
-    | some m => ⟨some c, some m.challenge, some (m.flags &&& ourFlags)⟩
-    | none => h
-  | _ => h
+    match h.phase with
+    | .accepted =>
+      match parseChallenge b with
+      | some m => (⟨.challenged c m.challenge, some (m.flags &&& p.flags)⟩, .ok)
+      | none => ({ h with phase := .dead }, .error)
+    | _ => (h, .error)
+  | .prepareChallengeReply =>
+    match h.phase with
+    | .challenged c t => ({ h with phase := .replied c }, .sent (reply c (dg p.cookie t)))
+    | _ => (h, .error)
+  | .handleChallengeAck b =>
+    match h.phase with
+    | .replied c =>
+      if parseAck b = some (dg p.cookie c) then ({ h with phase := .established }, .ok)
+      else ({ h with phase := .dead }, .error)
+    | _ => (h, .error)
 
-def histFrom (ourFlags : Nat) (h : Hist) (ops : List Op) : Hist := ops.foldl (histStep ourFlags) h
+def connRun (p : Side) (dg : Bytes → Nat → Bytes) (h : Conn) (ops : List Op) : Conn :=
+  ops.foldl (fun h op => (connStep p dg h op).1) h
 
-/-- the history functions from the start -/
-def hist (ourFlags : Nat) (ops : List Op) : Hist := histFrom ourFlags Hist.empty ops
+/-- what each event of a sequence answers -/
+def connResps (p : Side) (dg : Bytes → Nat → Bytes) : Conn → List Op → List Resp
+  | _, [] => []
+  | h, op :: rest => (connStep p dg h op).2 :: connResps p dg (connStep p dg h op).1 rest
 
-/-- API events that cannot take an established connection out of `connected` -/
-def Op.keepsConnected : Op → Bool
-  | .beginConnect => true
-  | .handleStatus _ => true
-  | .prepareComplement => true
-  | .handleChallengeAck _ => true
-  | _ => false
+/-! ### capability flags and message tags, as the protocol assigns them -/
 
-/-- API events that leave the challenges of the handshake in progress alone: everything except `disconnect` and a
-well-formed challenge message -/
-def Op.keepsChallenge : Op → Bool
-  | .disconnect => false
-  | .handleChallenge b _ => (parseChallenge b).isNone
-  | _ => true
+/-- `DFLAG_*` of erl_dist_protocol ("Distribution Flags"), by the name flags.rs uses, as bit positions -/
+def protocolFlagBit : List (String × Nat) := [
+  ("PUBLISHED", 0), ("ATOM_CACHE", 1), ("EXTENDED_REFERENCES", 2), ("DIST_MONITOR", 3), ("FUN_TAGS", 4),
+  ("DIST_MONITOR_NAME", 5), ("HIDDEN_ATOM_CACHE", 6), ("NEW_FUN_TAGS", 7), ("EXTENDED_PIDS_PORTS", 8),
+  ("EXPORT_PTR_TAG", 9), ("BIT_BINARIES", 10), ("NEW_FLOATS", 11), ("UNICODE_IO", 12), ("DIST_HDR_ATOM_CACHE", 13),
+  ("SMALL_ATOM_TAGS", 14), ("UTF8_ATOMS", 16), ("MAP_TAG", 17), ("BIG_CREATION", 18), ("SEND_SENDER", 19),
+  ("BIG_SEQTRACE_LABELS", 20), ("EXIT_PAYLOAD", 22), ("FRAGMENTS", 23), ("HANDSHAKE_23", 24), ("UNLINK_ID", 25),
+  ("SPAWN", 32), ("NAME_ME", 33), ("V4_NC", 34), ("ALIAS", 35)]
+
+/-- the value the protocol gives the capability called `name` -/
+def protocolFlag (name : String) : Option Nat := (protocolFlagBit.lookup name).map fun b => 2 ^ b
+
+/-- the capabilities a node must announce to be accepted by OTP 26 (`DFLAG_DIST_MANDATORY`: the OTP 25 set plus
+`V4_NC` and `UNLINK_ID`) -/
+def mandatoryOtp26 : List String := [
+  "EXTENDED_REFERENCES", "FUN_TAGS", "EXTENDED_PIDS_PORTS", "UTF8_ATOMS", "NEW_FUN_TAGS", "BIG_CREATION",
+  "NEW_FLOATS", "MAP_TAG", "EXPORT_PTR_TAG", "BIT_BINARIES", "HANDSHAKE_23", "V4_NC", "UNLINK_ID"]
+
+/-- what a current OTP node announces when it accepts (SPAWN, V4_NC, ALIAS in the high word; FRAGMENTS is bit 23) -/
+def otpAcceptorFlags : Nat := 0xd07df7fbd
+
+#guard protocolFlag "FRAGMENTS" == some 0x800000
+#guard protocolFlag "SPAWN" == some 0x100000000
+#guard protocolFlag "ALIAS" == some 0x800000000
+#guard (["SPAWN", "V4_NC", "ALIAS", "FRAGMENTS", "UNLINK_ID", "HANDSHAKE_23", "PUBLISHED"].all fun n =>
+  match protocolFlag n with | some v => otpAcceptorFlags &&& v == v | none => false)
+#guard (match protocolFlag "NAME_ME" with | some v => otpAcceptorFlags &&& v == 0 | none => false)
+
+/-- message tags: `n` old send_name, `N` new send_name and challenge, `s` status, `c` complement, `r` reply, `a` ack -/
+def tagNameOld : Nat := 110
+def tagNameNew : Nat := 78
+def tagStatus : Nat := 115
+def tagComplement : Nat := 99
+def tagReply : Nat := 114
+def tagAck : Nat := 97
+/-- the version field of the old send_name -/
+def versionOld : Nat := 5
+
+#guard [tagNameOld, tagNameNew, tagStatus, tagComplement, tagReply, tagAck] == "nNscra".toUTF8.toList.map (·.toNat)
 
 end Edp.Spec.Handshake
